@@ -874,6 +874,11 @@ class BG:
         self.emit("bchk %s" % idx.name)
 
 
+# operations of a 64-bit index after which `bplanes` is emitted at once (t[1] = the changed index / the new copy)
+PLANE_OPS64 = ("bparor", "badd", "binc", "bincall", "bsetmany", "bsetmanybig", "bretain", "bopt",
+               "bmarsh", "bstream", "btwc", "bclone", "bretainset")
+
+
 def add_plane_checks(g):
     """after every dump of an index also compare its bit planes with the plane-level model (64-bit: Impl/BSI.lean,
     32-bit: Impl/BSI32.lean)"""
@@ -889,6 +894,11 @@ def add_plane_checks(g):
             (is64.add if t[2] in is64 else is64.discard)(t[1])
             (is32.add if (t[2] in is32 and t[0] != "bstream") else is32.discard)(t[1])
         out.append(l)
+        if t[0] in PLANE_OPS64 and len(t) >= 2 and t[1] in is64:
+            # 64-bit index: the plane model (Impl/BSI64Ops.lean) replays these operations; compare the planes right after
+            # the operation (the subject / the freshly made copy), not only at the next dump
+            out.append("bplanes %s" % t[1])
+            g.count("bsi:bplanes:" + t[0])
         if t[0] == "bdump" and len(t) == 2 and t[1] in is64:
             out.append("bplanes %s" % t[1])
             g.count("bsi:bplanes")
